@@ -264,7 +264,7 @@ def check_C06(tier, seed, replay=None):
     combos = [(m, d, s) for m in (False, True) for d in (False, True) for s in (False, True)]
     options = [opt(memo=m, debug=d, stats=s) for (m, d, s) in combos] + [opt(memo=m, debug=d, stats=s, maxexpr=3000) for (m, d, s) in combos]
     nin = len(inputs)
-    lrin = add_lr(groups, inputs, 80 if tier == "quick" else 500, seed, pure=True)   # "for a grammar without left recursion" limits only the work bound
+    lrin = add_lr(groups, inputs, 60 if tier == "quick" else 400, seed, maxlen=3, pure=True)   # "for a grammar without left recursion" limits only the work bound
     run.add_witnesses([f["id"] for f in findings.active("C06")], groups, inputs, options)
 
     def plan_for(g):
@@ -305,6 +305,10 @@ def check_C10(tier, seed, replay=None):
     groups = F.random_groups(seed, n, F.RandCfg(depth=4, safe_rep=False), 1)
     groups += F.random_groups(seed + 1, n, F.RandCfg(depth=4, state=True, cloner=True, gstore=True, preds=True, errs=0.2), len(groups) + 1)
     groups += F.random_groups(seed + 2, n, F.RandCfg(depth=4, throw=True, preds=True, errs=0.3, leaves=F.LEAVES_FULL + F.LEAVES_UTF8), len(groups) + 1)
+    groups += F.random_groups(seed + 4, n // 2, F.RandCfg(depth=4, maxrules=2, preds=True, labpool=["k", "v", "w"]), len(groups) + 1)      # label shadowing
+    sh = [("lit", (F.A,), False), ("cls", (F.A, F.B), (), False, False), ("any",)]
+    shg = F.groups_from_trees([("shadow", a, b, c) for a in sh for b in sh for c in sh[:2]] + [("shadow", a, b, ("lit", (), False), ("pred", False, "true")) for a in sh for b in sh], gi0=len(groups) + 1)
+    groups += shg
     inputs = F.all_inputs([F.A, F.B, F.NL], maxlen)
     options = [opt(), opt(maxexpr=3000)]
     nin = len(inputs)
@@ -607,7 +611,7 @@ def check_C07(tier, seed, replay=None):
         if rc == 0:
             accepted.append(g)
     inputs = F.all_inputs([F.A, F.B], 3)
-    options = [opt(maxexpr=2000)]
+    options = [opt(maxexpr=2000), opt(maxexpr=300, debug=True)]
     gp = os.path.join(P.workdir(), "groups.ndjson")
     dump_groups(groups, gp)
     tcase = dict(inputs=inputs, options=options, lower=[[0, 0]], uclass=[[0]], cmp=dict(store=True, errs=True, ctx=False, norm=False), kf=["-"], strict=[0])
@@ -626,7 +630,42 @@ def check_C07(tier, seed, replay=None):
         g2 = F.c07_group(i + 1, specs[g.gi - 1])
         acc2.append(g2)
     nin = len(inputs)
-    d2, tot2 = run2.execute(acc2, inputs, options, lambda g: [(ii, 0) for ii in range(nin)], [[]], timeout_ms=4000, pack_size=100)
+    run2.keep_debug = True
+    d2, tot2 = run2.execute(acc2, inputs, options, lambda g: [(ii, 0) for ii in range(nin)] + [(ii, 1) for ii in range(nin)], [[]], timeout_ms=4000, pack_size=100)
+    # the Debug traces of those runs, validated by TLC against the stack machine of TraceReentry.tla (invariant NoReentry)
+    import re as _re
+    rl = _re.compile(rb"^ *(>|<) \d+:\d+:(\d+): parseRule (\S+) \[")
+    rtr = []
+    for v in run2.variants:
+        dbg = os.path.join(v.dir, "debug.txt")
+        if not os.path.exists(dbg):
+            continue
+        plan = run2.plans[v.vi]
+        cur = None
+        with open(dbg, "rb") as f:
+            for ln in f:
+                if ln.startswith(b"@@BEGIN "):
+                    kk = int(ln.split()[1])
+                    gx, ii, oi = plan[kk - 1]
+                    cur = dict(gi=v.groups[gx].gi, ii=ii + 1, evs=[])
+                elif ln.startswith(b"@@END "):
+                    if cur is not None:
+                        rtr.append(cur)
+                    cur = None
+                elif cur is not None:
+                    m_ = rl.match(ln)
+                    if m_:
+                        cur["evs"].append([m_.group(1).decode(), m_.group(3).decode(), int(m_.group(2))])
+        os.remove(dbg)
+    d3, tot3 = P.validate_t1(gp, dict(inputs=[[]], options=[opt()]), [], shards=12, module="TraceReentry", obsname="reentry.ndjson",
+                             lines=[json.dumps(t) + "\n" for t in rtr], min_chunk=100) if rtr else ([], dict(n=0, states=0, transitions=0))
+    f6 = {d["gi"] for d in div if d["df"] == "accepted-left-recursion-F6"}
+    for d in d3:
+        if accepted[d["gi"] - 1].gi in f6:
+            continue            # the run-time consequence of known finding F6 (the grammar should have been rejected)
+        d["vi"], d["oi"] = run2.variants[0].vi, 2
+        run.violation(run2.replay_path(d), "accepted grammar re-enters a rule at the same offset (Debug trace, line %d)" % d["at"])
+    tot2 = dict(n=tot2["n"] + tot3["n"], states=tot2["states"] + tot3["states"], transitions=tot2["transitions"] + tot3["transitions"])
     # map back for replay files
     run.variants, run.obs = run2.variants, run2.obs
     for d in d2:
@@ -635,7 +674,7 @@ def check_C07(tier, seed, replay=None):
     run.stats = run2.stats
     run.variants = [P.Variant(1, "cmd", groups[:1], [])]
     return std_finish(run, div, tot, "every shape of a rule reference behind a prefix (nullable, optional, predicate, code block, empty literal, empty classes, repetition, choice, label, action, recovery) x 7 prefix expressions for a self-referring rule and for two mutually referring rules (exhaustive) + random 2-3 rule grammars; each through the real command (exit status, diagnostic); oracle: syntactic MayCycle (must accept without) and semantic re-entry witness of PegRef over all inputs <= 3 (must reject with); accepted grammars are generated and run on all inputs",
-                      classify=classify_C07, extra=dict(accepted=nacc, rejected_left_recursion=nrej, accepted_run=len(acc2)))
+                      classify=classify_C07, extra=dict(accepted=nacc, rejected_left_recursion=nrej, accepted_run=len(acc2), reentry_traces_validated=len(rtr)))
 
 
 def classify_C07(run, d):
@@ -745,6 +784,14 @@ def check_C19(tier, seed, replay=None):
         g.compute_args()
         optg.append(g)
     optg += c09_idiom_groups(seed + 9, 20 if tier == "quick" else 200, len(groups) + 5000)
+    thr = F.random_groups(seed + 13, 40 if tier == "quick" else 300, F.RandCfg(depth=4, maxrules=3, throw=True), gi0=len(groups) + 9000)
+    for g in thr:                  # recovery operators with several labels
+        pth = os.path.join(d, "t%d.peg" % g.gi)
+        texts[g.gi] = pack_text([g])
+        with open(pth, "w") as f:
+            f.write(texts[g.gi])
+        jobs.append((g, pth, []))
+        jobs.append((g, pth, ["-optimize-parser"]))
     for g in optg:
         pth = os.path.join(d, "o%d.peg" % g.gi)
         texts[g.gi] = pack_text([g])
